@@ -53,7 +53,7 @@ def reset_world():
 
 
 def gen_case(rng, tier):
-    cfg = ic.gen_config(rng)
+    cfg = ic.gen_config(rng, exotic=True)
     nd = rng.randint(1, 8)
     dgms = [ic.gen_bd_diagram(rng, cfg) for _ in range(nd)]
     ops = []
